@@ -19,11 +19,13 @@ type leaf05 struct {
 	target, origin, path string
 	keyed                bool // last element carries key n=v
 	val                  int64
+	atomic               bool // an atomic container stored at path (leaves m, n below it)
 }
 
 var content05 = []leaf05{
-	{"t1", "", "a/b", false, 1}, {"t1", "", "a/c", false, 2}, {"t1", "", "b", false, 3}, {"t1", "o", "a/b", false, 4},
-	{"t1", "", "a/k", true, 5}, {"t1", "", "c/a/b", false, 6}, {"t2", "", "a/b", false, 7}, {"t2", "o", "b", false, 8},
+	{"t1", "", "a/b", false, 1, false}, {"t1", "", "a/c", false, 2, false}, {"t1", "", "b", false, 3, false}, {"t1", "o", "a/b", false, 4, false},
+	{"t1", "", "a/k", true, 5, false}, {"t1", "", "c/a/b", false, 6, false}, {"t2", "", "a/b", false, 7, false}, {"t2", "o", "b", false, 8, false},
+	{"t1", "", "c/at", false, 9, true},
 }
 
 func (l leaf05) index() []string {
@@ -101,7 +103,7 @@ func (s sub05) want() (map[string]int64, bool) {
 
 func configs05(tier string) []xplore.Config {
 	var out []xplore.Config
-	elems := []string{"", "a", "b", "c", "*", "a/b", "a/*", "*/b", "*/*", "c/a", "a/k", "a/k/v", "a/k/*", "*/a/b"}
+	elems := []string{"", "a", "b", "c", "*", "a/b", "a/*", "*/b", "*/*", "c/a", "a/k", "a/k/v", "a/k/*", "*/a/b", "c/at", "c/at/*", "c/at/m", "c/*"}
 	if tier == "thorough" {
 		elems = append(elems, "a/b/c", "*/a/b", "c/*/b", "*/*/*", "a/*/*", "c/a/b")
 	}
@@ -160,6 +162,13 @@ func run05(cfg xplore.Config, ch vrt.Chooser, trace bool) (xplore.Outcome, *vrt.
 			p := mkPath(l.path)
 			if l.keyed {
 				p.Elem[len(p.Elem)-1].Key = map[string]string{"n": "v"}
+			}
+			if l.atomic {
+				pre := mkPath(l.path)
+				pre.Target, pre.Origin = l.target, l.origin
+				w.c.GnmiUpdate(&pb.Notification{Timestamp: 1, Atomic: true, Prefix: pre, Update: []*pb.Update{{Path: mkPath("m"), Val: ival(l.val)}, {Path: mkPath("n"), Val: ival(l.val)}}})
+				w.noteHeld(l.target, strings.Join(l.index(), "/"), l.val)
+				continue
 			}
 			w.c.GnmiUpdate(&pb.Notification{Timestamp: 1, Prefix: &pb.Path{Target: l.target, Origin: l.origin}, Update: []*pb.Update{{Path: p, Val: ival(l.val)}}})
 			w.noteHeld(l.target, strings.Join(l.index(), "/"), l.val)
@@ -228,6 +237,11 @@ func run05(cfg xplore.Config, ch vrt.Chooser, trace bool) (xplore.Outcome, *vrt.
 			got := map[string]string{}
 			for _, resp := range st.log[start:st.syncSeen[r]] {
 				n := resp.GetUpdate()
+				if n != nil && n.Atomic && len(n.Update) == 2 {
+					// the atomic container arrives as one unit at its prefix
+					got[n.GetPrefix().GetTarget()+"|"+strings.Join(fullIndex(n.Prefix, nil), "/")] = fmt.Sprint(n.Update[0].GetVal().GetIntVal())
+					continue
+				}
 				if n == nil || len(n.Update) != 1 {
 					viol(&out, "response-shape", "%s: unexpected response %v", s, resp)
 					continue
